@@ -4,8 +4,15 @@ from vt import ir, seams
 GROUPS = ("simple", "dynamic", "heuristic", "mamba", "unroll")
 
 
+def build_cls(cls, group, shuffle=None):
+  """A hand-written component class under one scheduling pass group (no IR): returns the simulatable top."""
+  d = Dut.__new__(Dut)
+  Dut.__init__(d, None, group, cls=cls, shuffle=shuffle, _no_ir=True)
+  return d.top
+
+
 class Dut:
-  def __init__(self, top_ir, group="dynamic", hook=None, cls=None, keep_dag=False, shuffle=None):
+  def __init__(self, top_ir, group="dynamic", hook=None, cls=None, keep_dag=False, shuffle=None, _no_ir=False):
     """hook(top) is called after the scheduling pass and before the simulator
     is prepared (only for group 'simple': schedule surgery)."""
     from pymtl3.passes.sim.GenDAGPass import GenDAGPass
@@ -48,6 +55,7 @@ class Dut:
       UnrollSimPass(print_line_trace=False)(top)
     else:
       raise KeyError(group)
+    if _no_ir: return
     self.keys = sorted(ir.instances(top_ir))
     body = ", ".join(f"int({ir.inst_name(k)}.to_bits())" for k in self.keys)
     self._read = eval(f"lambda s: ({body},)")
